@@ -338,3 +338,60 @@ def run(ctx):
             check(i, rng, ty, T, v, 'inherit')
 
     drive.for_each_case(ctx, 'inherit', max(30, ctx.budget // 6), body_inherit, gen=gen_inherit)
+
+    # scalar fields with an interchange form of their own: a field converter, a class-level handler, a handler passed to the call
+    # (an int kept as a hex string). The serialised form must be THAT form, in every layout, and must read back.
+    class HexConv(env.Converter):
+        def expected(self, plural=False): return 'hex string'
+        def try_convert(self, val):
+            if isinstance(val, str) and val.startswith('0x'):
+                try:
+                    return int(val, 16)
+                except ValueError:
+                    pass
+            raise env.m_errors.ParseInterrupt()
+        def collect_errors(self, val):
+            try:
+                self.try_convert(val)
+                return None
+            except env.m_errors.ParseInterrupt:
+                return env.m_errors.WrongTypeError(self.expected(), val)
+        def into_data(self, val): return hex(val)
+
+    def body_fieldconv(i, rng, ty_unused, T_unused):
+        how = rng.choice(('field', 'class', 'call'))
+        out_format = rng.choice(('struct', 'tuple'))
+        ns = {'__annotations__': {'name': str, 'port': int, 'ratio': float, 'extra': t.List[int]}, 'ratio': 1.5, '__module__': __name__,
+              'extra': env.pfield(default_factory=list)}
+        if how == 'field':
+            ns['port'] = env.pfield(converter=HexConv())
+        opts = {'in_format': ('struct', 'tuple'), 'out_format': out_format}
+        if how == 'class':
+            opts['custom'] = {int: HexConv()}
+        cls = type(f"KH{next(_serial)}", (env.PaneBase,), ns, **opts)
+        custom = {int: HexConv()} if how == 'call' else None
+        elems = ['0x1', '0x2'] if how != 'field' else [1, 2]
+        data = {'name': 'n', 'port': '0x20', 'ratio': 2.5, 'extra': elems}
+        o = observe(env.from_data, data, cls, custom=custom)
+        ctx.count('custom_form_roundtrips')
+        ctx.case(('fieldconv', how, out_format, o.kind), nontrivial=True)
+        wit = {'how': how, 'out_format': out_format, 'data': short(data), 'from_data': o.brief()}
+        if o.kind != 'value' or o.val.port != 32 or type(o.val.port) is not int:
+            ctx.violation('round-trip', 'fieldconv', i, wit, mech='custom-form:not-read')
+            return
+        d = observe(env.into_data, o.val, cls, custom=custom)
+        want = {'name': 'n', 'port': '0x20', 'ratio': 2.5, 'extra': elems}
+        want = want if out_format == 'struct' else tuple(want.values())
+        if d.kind != 'value' or not deep_typed_eq(_listify(want), _listify(d.val))[0]:
+            ctx.violation('round-trip', 'fieldconv', i, {**wit, 'into_data': d.brief(), 'expected_data': short(want)}, mech='custom-form:not-written')
+            return
+        back = observe(env.from_data, d.val, cls, custom=custom)
+        if back.kind != 'value' or not (back.val == o.val):
+            ctx.violation('round-trip', 'fieldconv', i, {**wit, 'into_data': d.brief(), 'reparsed': back.brief()}, mech='custom-form:reparse-differs')
+            return
+        if how != 'call':
+            m = observe(o.val.into_data)
+            if m.kind != 'value' or not deep_typed_eq(_listify(want), _listify(m.val))[0]:
+                ctx.violation('round-trip', 'fieldconv', i, {**wit, 'x.into_data()': m.brief(), 'expected_data': short(want)}, mech='custom-form:method-differs')
+
+    drive.for_each_case(ctx, 'fieldconv', max(20, ctx.budget // 20), body_fieldconv, gen=lambda c, r: Ty('int'))
